@@ -29,7 +29,7 @@ def run(chk):
     vs = pool(chk, n)
     cases = [("vcmp", [a[0], a[1], a[2], b[0], b[1], b[2]]) for a in vs for b in vs]
     impl, model = chk.run_both(cases)
-    chk.compare("pool-pairs", cases, impl, model, nontrivial=lambda c, r: c[1][:3] != c[1][3:])
+    chk.compare("pool-pairs", cases, impl, model, nontrivial=lambda c, r: c[1][:3] != c[1][3:], spec=False)   # the laws themselves are evaluated below on the implementation's answers
     # the laws, evaluated on the implementation's own answers over all triples of the pool
     sg = {}
     for (c, r) in zip(cases, impl):
